@@ -266,6 +266,7 @@ pub fn arb_adversarial_blockspec() -> impl Strategy<Value = BlockSpec> {
             12 => Just((None, None)),
             1 => (0usize..TX_EDITS.len(), 0u8..3, 0u8..3).prop_map(|(e, a, v)| (Some((TX_EDITS[e], a, v)), None)),
             1 => (0usize..BLOCK_EDITS.len()).prop_map(|e| (None, Some(BLOCK_EDITS[e]))),
+            1 => (0usize..2).prop_map(|e| (None, Some(crate::adversary::ID_EDITS[e]))),
         ],
     )
         .prop_map(|(mut b, (bad, cor)): (BlockSpec, (Option<(TxEdit, u8, u8)>, Option<BlockEdit>))| {
